@@ -613,7 +613,7 @@ class App(falcon.app.App):
                 # NOTE(kgriffs): If they are going to stream using an
                 #   async generator, we can't know in advance what the
                 #   content length will be.
-                (data is not None or not resp.stream)
+                (data is not None or resp.stream is None)
                 and req.method == 'HEAD'
                 and resp_status not in _BODILESS_STATUS_CODES
                 and 'content-length' not in resp._headers
@@ -747,7 +747,9 @@ class App(falcon.app.App):
             return
 
         stream = resp.stream
-        if not stream:
+        # NOTE: Test for None rather than for truth, as the WSGI app does; a
+        #   stream object may define __len__() or __bool__().
+        if stream is None:
             resp._headers['content-length'] = '0'
 
         await send(
@@ -760,7 +762,7 @@ class App(falcon.app.App):
             }
         )
 
-        if stream:
+        if stream is not None:
             # Detect whether this is one of the following:
             #
             #   (a) async file-like object (e.g., aiofiles)
